@@ -19,6 +19,8 @@ abbrev Bytes := List Nat
 structure UOS extends OS where
   /-- `lstat` succeeds: some entry (file, directory, symlink — dangling or not) has this name -/
   lexists : Path → Bool
+  /-- `os.path.realpath(p)` (non-strict): none = it raised `OSError` / `ValueError` -/
+  realpath : Path → Option Path
 
 structure UCfg where
   dir : Path                       -- resolved upload directory
@@ -68,6 +70,11 @@ def typeOk (c : UCfg) (r : UReq) : Bool :=
   match c.allowedTypes with
   | none => true
   | some l => l.isEmpty || l.contains r.mime
+
+/-- `_is_safe_path`: inside the upload directory (component-wise) AND a fixpoint of `realpath` —
+    `Path.resolve()` can return a path that still contains symlinks (a link whose target passes
+    through the link itself), and those could lead anywhere -/
+def safePath (os : UOS) (c : UCfg) (t : Path) : Bool := inside c.dir t && os.realpath t == some t
 
 def consPath (p : Path) (r : Bool × List Path) : Bool × List Path := (r.1, p :: r.2)
 
@@ -122,7 +129,7 @@ def store (os : UOS) (c : UCfg) (f : Faults) (target : Path) (content : Bytes) :
 
 /-- `_handle_delete` after the `enable_delete` test -/
 def deleteAt (os : UOS) (c : UCfg) (f : Faults) (t : Path) : UStatus × List Effect :=
-  if !inside c.dir t then (.s59, [])
+  if !safePath os c t then (.s59, [])
   else if probeLong os.toOS c c.dir (t.drop c.dir.length) then (.raised, [])   -- `target.exists()` raises ENAMETOOLONG
   else if os.kind t = .missing then (.s51, [])
   else if f.unlinkOk && os.kind t != .dir then (.s20, [.unlink t true])
@@ -142,7 +149,7 @@ def handleUpload (os : UOS) (c : UCfg) (f : Faults) (r : UReq) : UStatus × List
   else match os.resolve (c.dir ++ r.comps) with
     | none => (.raised, [])
     | some t =>
-      if !inside c.dir t || t == c.dir then (.s59, [])
+      if !safePath os c t || t == c.dir then (.s59, [])
       else store os c f t (r.content.take r.size)
 
 /-! ### a file-level view of the effects: which regular files exist with which bytes afterwards -/
